@@ -54,7 +54,12 @@ func process1Map(obj map[string]any, mergeFrom *Document, mergeFromDocs []*Docum
 			return nil, err
 		}
 
-		return map[string]any{k2.(string): v2}, nil
+		k3, ok := k2.(string)
+		if !ok {
+			return nil, fmt.Errorf("%s: %T as map key: %w", k, k2, ErrInvalidType)
+		}
+
+		return map[string]any{k3: v2}, nil
 	})
 }
 
